@@ -339,6 +339,7 @@ public:
             all.insert(all.end(), v.begin(), v.end());
         std::stable_sort(all.begin(), all.end(), [](const Rec& x, const Rec& y) { return x.seq < y.seq; });
         u16 last_sent[3] = {0, 0, 0}, last_recv[3] = {0, 0, 0};
+        const bool single_reader = hosts == 1 && sh.reenter != 1;
         u64 handler_calls[4] = {0, 0, 0, 0}, echoed = 0;
         std::set<u16> sent[3];
         for (auto& r : all) {
@@ -356,7 +357,12 @@ public:
                     out.violate("C19.value-invented", fmt("host read 0x%04x from reply channel %u at event %llu; no such value had been sent on that "
                                                           "channel (sent so far: %zu values, last 0x%04x)",
                                                           r.value, r.ch, (unsigned long long)r.seq, sent[r.ch].size(), last_sent[r.ch]));
-                // ... and values are seen in send order
+                // ... and values are seen in send order. With a single reader that reads only when the ready
+                // flag is set, every read belongs to a different send, so the echoes are strictly increasing.
+                else if (single_reader && r.value == last_recv[r.ch])
+                    out.violate("C19.duplicate", fmt("the only reader of reply channel %u read 0x%04x twice although it reads only when the "
+                                                     "data-ready flag is set and every value is sent once (stale data delivered as fresh)",
+                                                     r.ch, r.value));
                 else if (r.value < last_recv[r.ch])
                     out.violate("C19.reordered", fmt("host read 0x%04x from reply channel %u after it had already read 0x%04x", r.value, r.ch,
                                                      last_recv[r.ch]));
